@@ -225,9 +225,10 @@ def R3_back_references(run):
 
 
 def _loader_checks(run, rule, fn, pool_param="whirlpool", pinocchio_=False):
-    """owner == program, len >= 8, discriminator in {fixed, dynamic}, array.whirlpool == expected; all must fail before a success return."""
+    """owner == program, len >= 8, discriminator in {fixed, dynamic}, array.whirlpool == expected; each must be passed on every
+    success path: with the continuing edges of all atoms of one kind cut, no success return remains reachable."""
     ats = A.atoms(fn)
-    found = {"owner": False, "len": False, "pool": False, "writable": False}
+    kinds = {"owner": [], "len": [], "pool": [], "writable": []}
     for at in ats:
         s = show(at.term, True)
         codes = at.true_codes | at.false_codes
@@ -235,16 +236,26 @@ def _loader_checks(run, rule, fn, pool_param="whirlpool", pinocchio_=False):
         if not fails:
             continue
         if ("owner" in s or "is_owned_by" in s) and "AccountOwnedByWrongProgram" in codes:
-            found["owner"] = True
+            kinds["owner"].append(at)
         if "len" in s and "AccountDiscriminatorNotFound" in codes:
             for (op, a, b) in fail_conditions(at):
                 for (o, x, y) in ((op, a, b), (A.SWAP[op], b, a)):
-                    if o == "Lt" and const_val(y) == 8:
-                        found["len"] = True
+                    if o == "Lt" and const_val(y) == 8 and at not in kinds["len"]:
+                        kinds["len"].append(at)
         if "whirlpool" in s and "DifferentWhirlpoolTickArrayAccount" in codes and mentions(at.term, lambda t: t[0] == "param" and t[1] == pool_param):
-            found["pool"] = True
+            kinds["pool"].append(at)
         if ("is_writable" in s) and "AccountNotMutable" in codes:
-            found["writable"] = True
+            kinds["writable"].append(at)
+    found = {}
+    for k, lst in kinds.items():
+        if not lst:
+            found[k] = False
+            continue
+        cut = set()
+        for at in lst:
+            for tgt in (at.false_targets if at.true_fail else at.true_targets):
+                cut.add((at.block, tgt))
+        found[k] = not cfg.success_reach(fn, 0, cut_edges=cut)
     return found
 
 
